@@ -468,6 +468,40 @@ fn sessions(ctx: &Ctx, shard: usize, n: u64, rep: &mut Report) {
             }
         }
     }
+    if shard == 3 {
+        // exactly k exchanges in a row fail in the same way (k = 1..3, 62..66, 127..129, 255..257), then two ordinary
+        // ones: how many failures a bus has seen must not change what it does with the next message
+        let good = refs::wire(&RefMsg::Report(3, S_LOADED));
+        for k in [1usize, 2, 3, 62, 63, 64, 65, 66, 127, 128, 129, 255, 256, 257] {
+            for kind in 0..5 {
+                let mut tape = vec![];
+                let mut read_faults = vec![];
+                let mut write_script = vec![];
+                let mut msgs: Vec<RefMsg> = vec![RefMsg::Query(3); k + 2];
+                match kind {
+                    0 => read_faults.push((0usize, ReadFault::Fail(io::ErrorKind::TimedOut), k)),
+                    1 => read_faults.push((0usize, ReadFault::Fail(io::ErrorKind::Other), k)),
+                    2 => read_faults.push((0usize, ReadFault::Eof, k)),
+                    3 => {
+                        for i in 0..k {
+                            tape.extend_from_slice(if i % 2 == 0 { b":0100030410E9\r\n" } else { b"?\r\n" }); // bad checksum / garbage
+                        }
+                    }
+                    _ => {
+                        write_script = vec![WriteAct::Fail(io::ErrorKind::BrokenPipe); k];
+                        msgs = vec![RefMsg::Goodbye(3); k];
+                        msgs.push(RefMsg::Query(3));
+                        msgs.push(RefMsg::Query(3));
+                    }
+                }
+                tape.extend_from_slice(&good);
+                tape.extend_from_slice(&good);
+                tape.extend_from_slice(SENTINEL);
+                run_session(&msgs, tape, vec![], read_faults, write_script, WriteAct::Accept(usize::MAX), rep);
+                rep.count("sessions_after_k_failures");
+            }
+        }
+    }
     if shard == 1 {
         // one bus instance, 70 000 messages (more than any 16-bit counter holds), each judged like any other
         let msgs: Vec<RefMsg> = (0..70_000usize).map(|i| if i % 3 == 0 { RefMsg::Query((i / 3) as u16) } else { pool(&mut rng) }).collect();
@@ -726,6 +760,7 @@ pub fn run(ctx: &Ctx) -> Outcome {
     floors.push(floor("read failures hit", report.get("read_failures_injected_and_hit") > 0, report.get("read_failures_injected_and_hit")));
     floors.push(floor("sessions that go on after a reply was cut short (read error / end of stream mid-session)", report.get("session_read_faults_hit") > 500, report.get("session_read_faults_hit")));
     floors.push(floor("a failing read right after each kind of reply (15 reply kinds x 3 next requests x 3 positions x 4 failures)", report.get("sessions_failing_read_after_each_reply_kind") == 15 * 3 * 3 * 4, report.get("sessions_failing_read_after_each_reply_kind")));
+    floors.push(floor("two ordinary exchanges after exactly k failing ones (14 counts x 5 kinds of failure)", report.get("sessions_after_k_failures") == 70, report.get("sessions_after_k_failures")));
     floors.push(floor("one bus instance used for 70 000 messages", report.get("long_session_messages_checked") == 70_000, report.get("long_session_messages_checked")));
     floors.push(floor("multi-message sessions on one bus (write failure at every call index + random)", report.get("session_core_done") == 1 && report.get("sessions") > 1000 && report.get("session_write_failures_hit") > 100, report.get("sessions")));
     floors.push(floor("fault-at-every-index case lists ran", report.get("cases/write_fault_each_call") > 50 && report.get("cases/read_fault_each_position") > 100 && report.get("cases/read_fragmentation") == 4096, report.get("cases/read_fault_each_position")));
